@@ -228,6 +228,13 @@ Lemma note_names_injective_b :
                             (seq 0 (List.length names))) (seq 0 (List.length names)) = true.
 Proof. vm_cast_no_check (eq_refl true). Qed.
 
+(* the other accidental spellings of the grammar ("##", "x", "###", ...) and multi-digit octaves *)
+Lemma tab_name_alt_ok :
+  all_rows tab_name_alt (fun k v => let '(s, a, o) := k in
+     ps_res_eqb (fst v) (s, a, o) && zopt_eqb (snd v) (ps_to_midi s a o)) = true
+  /\ List.length tab_name_alt = 336%nat.
+Proof. split; [vm_cast_no_check (eq_refl true) | vm_compute; reflexivity]. Qed.
+
 (* O2: keys *)
 Definition dom_key : list (Z * Z) := list_prod (zrange (-12) 25) (zrange 0 9).
 
@@ -359,6 +366,10 @@ Proof. split; vm_compute; reflexivity. Qed.
 Lemma tab_freq_covers :
   covers zz_eqb (list_prod (zrange 0 128) [440; 415; 442]) tab_freq (fun k v => zopt_eqb v (Some (fst k))) = true.
 Proof. vm_cast_no_check (eq_refl true). Qed.
+
+Lemma tab_freq_off_ok :
+  all_rows tab_freq_off (fun k v => zopt_eqb v (Some (fst k))) = true /\ List.length tab_freq_off = 256%nat.
+Proof. split; [vm_cast_no_check (eq_refl true) | vm_compute; reflexivity]. Qed.
 
 Lemma impl_freq_lemma m a4 : 0 <= m <= 127 -> In a4 [440; 415; 442] -> In ((m, a4), Some m) tab_freq.
 Proof.
